@@ -629,12 +629,14 @@ SPEC_C19 = {
         T19 + "invalid_input_no_start", T19 + "valid_input_starts_every_step",
         T19 + "validation_before_start", T19 + "validation_guarded", T19 + "start_loop_present",
         T19 + "validation_before_start_spelled",
+        # the front end: a scalar of the input file is its text; Run hands Raw() of the engine's YAML tree to Execute
+        T19 + "input_file_scalar_is_its_text", T19 + "run_passes_the_text_reading_to_execute",
         # a refused input leaves the prepared workflow usable: the input lock is released on every path of Execute (lock-balance
         # checker on the regenerated skeleton, sound w.r.t. the path semantics of the skeleton language)
         T19 + "input_lock_released_on_every_path", T19 + "input_lock_taken_once_in_execute", T19 + "every_lock_released",
         "Arca.Proofs.LockBalance.balanced_sound",
     ],
-    "pins": ["workflow_workflow_executableWorkflow_Execute"],
+    "pins": ["workflow_workflow_executableWorkflow_Execute", "engine_engineWorkflow_Run"],
     "streams": [
         {"name": "input",
          "harness": lambda t, s: ["input", "-n", str(input_n(t)), "-seed", str(s), "-tier", t],
